@@ -68,6 +68,7 @@ class Analyzer:
         self.summaries = summaries      # object with .mod(callee id) / .ret(callee id)  (optional)
         self.interproc = interproc
         self._promoted_cache = {}
+        self.watch = None               # optional predicate on callee paths: argument values are recorded in Result.call_states
         self.closure_seeds = {}         # closure body id -> {arg local: (lo, hi)}
 
     # ------------------------------------------------------------------ types
